@@ -76,9 +76,11 @@ theorem roundTrip_of (b32 down : Codec) (t : RRType) (domain : List Nat) (r r' :
     (answers got : List RR) (data : List Nat)
     (h1 : wrap t domain (encodeResp b32 down r) = some answers) (hq : questionOk domain = true)
     (h2 : answersOverWire answers = .ok got) (h3 : unwrap domain.length got = some data)
-    (h4 : decodeResp b32 down data = .ok r') :
+    (h4 : decodeResp b32 down data = .ok r') (h16 : got.length < 65536) :
     roundTrip b32 down t domain r = .ok got.length data.length r' := by
-  simp only [roundTrip, h1, hq, h2, h3, h4, Bool.not_true, Bool.false_eq_true, if_false]
+  have htake : got.take (got.length % 65536) = got := by
+    rw [Nat.mod_eq_of_lt h16]; exact List.take_length
+  simp only [roundTrip, h1, hq, h2, htake, h3, h4, Bool.not_true, Bool.false_eq_true, if_false]
 
 theorem unwrap_single (L : Nat) (rr : RR) (key : Int) (data : List Nat)
     (hk : typePriority rr = some key) (hu : unwrapOne L rr = some data) :
@@ -113,7 +115,7 @@ theorem C10_partial (b32 down : Codec) (hb : b32.Good) (hd : down.Good)
       simp [answersOverWire, rrOverWire, hl3]
     have h3 : unwrap domain.length [RR.null d] = some data :=
       unwrap_single _ _ (10000 + 1) data (by simp [typePriority, h16]) (by simp [unwrapOne, hl2, hdrop])
-    have := roundTrip_of b32 down .null domain r r _ _ data h1 hq h2 h3 hdec
+    have := roundTrip_of b32 down .null domain r r _ _ data h1 hq h2 h3 hdec (by simp)
     simpa using this
   | priv =>
     have hlen : data.length ≤ SA.Gen.C09.wrapChunkPrivate := by simpa [C10_region] using hreg
@@ -128,7 +130,7 @@ theorem C10_partial (b32 down : Codec) (hb : b32.Good) (hd : down.Good)
       simp [answersOverWire, rrOverWire, hl3, C10_private_registered]
     have h3 : unwrap domain.length [RR.priv d] = some data :=
       unwrap_single _ _ (20000 + 1) data (by simp [typePriority, h16]) (by simp [unwrapOne, hl2, hdrop])
-    have := roundTrip_of b32 down .priv domain r r _ _ data h1 hq h2 h3 hdec
+    have := roundTrip_of b32 down .priv domain r r _ _ data h1 hq h2 h3 hdec (by simp)
     simpa using this
   | txt =>
     have hlen : data.length ≤ SA.Gen.C09.wrapChunkTxt := by simpa [C10_region] using hreg
@@ -164,7 +166,7 @@ theorem C10_partial (b32 down : Codec) (hb : b32.Good) (hd : down.Good)
       refine unwrap_single _ _ (30000 + (b32CharToInt 97 + b32CharToInt 97 * 32)) data ?_ ?_
       · simp [typePriority, htl]
       · simp [unwrapOne, hesc.1, hun, hl2, hdrop]
-    have := roundTrip_of b32 down .txt domain r r _ _ data h1 hq h2 h3 hdec
+    have := roundTrip_of b32 down .txt domain r r _ _ data h1 hq h2 h3 hdec (by simp)
     simpa using this
   | srv => simp [C10_region] at hreg
   | mx => simp [C10_region] at hreg
@@ -292,8 +294,12 @@ theorem C10_reassembly (b32 down : Codec) (hb : b32.Good) (hd : down.Good)
   constructor
   · have h3 := (hall sortByKey sortByKey_spec got (List.Perm.refl _)).2
     rw [← unwrap_eq_unwrapWith] at h3
-    have := roundTrip_of b32 down t domain r r answers got _ hw hq hwire h3 hdec
-    rw [this, (hall sortByKey sortByKey_spec got (List.Perm.refl _)).1, hcnt]
+    have hgl := (hall sortByKey sortByKey_spec got (List.Perm.refl _)).1
+    have h16 : got.length < 65536 := by
+      have : tagBound t ≤ 65535 := by cases t <;> decide
+      omega
+    have := roundTrip_of b32 down t domain r r answers got _ hw hq hwire h3 hdec h16
+    rw [this, hgl, hcnt]
   · intro sort hs xs hp
     exact (hall sort hs xs hp).2
 
